@@ -11,7 +11,10 @@ KindAtoms  == {"missing", "dir", "symlinkDir", "file"}
 EntryAtoms == {"pemCA", "derCA", "multiPEM", "multiCAnonRootFirst", "multiCAnonRootLast", "selfSignedLeaf", "leafNotSelfSigned", "nonRootCA", "garbage", "emptyFile", "subdir", "symlinkFile",
                \* self-ISSUED (issuer name = subject name) but signed with another key: a leaf of that kind is not self-signed,
                \* a CA of that kind is not a root
-               "leafSelfIssued", "caSelfIssued"}
+               "leafSelfIssued", "caSelfIssued",
+               \* one file, several certificates, one of which may not be in a trust store (a leaf that is not self-signed): after or
+               \* before a CA certificate - every certificate of a file counts, not the first one
+               "multiCAThenLeaf", "multiLeafThenCA"}
 
 KnownType(t) == t \in {"ca", "signingAuthority", "tsa"}
 PlainName(n) == n \in {"plain", "dotted"}
